@@ -109,6 +109,8 @@ class AnalysisInterp(Interp):
 
     def isinstance_(self, st, v, typ, node):
         t = ast.unparse(typ)
+        if isinstance(v, NoneV):
+            return "None" in t  # None is an instance of nothing else
         if isinstance(v, Obj) and v.kind == "candles":
             return False if "Candle" in t else ("opaque", ast.unparse(node))
         if isinstance(v, Obj) and v.kind == "candle":
